@@ -11,25 +11,67 @@
   mutually authenticated); tie: outcome, the blocks the card accepted (in order, system blocks included) and the view
   after every attempt equal the Type 3 history model (`drv_c02 h3`, theorems t3_history_cut_safe / t3_retry_cut_safe);
   oracle as for Type 3.  The card is sims/auth_felica.LiteTag (written from the user manuals for check C20).
+* READER side of the WriteF protocol in the classes that override `_read_attribute_data` (FelicaLite.NDEF,
+  FelicaLiteS.NDEF) and those that inherit it (FelicaStandard, FelicaMobile, FelicaPlug): L1 theorems of
+  NfcVerif.Props.C02Vendor (`t3_vendor_cut_safe`: every cut point, every product, plain AND authenticated reader, every
+  memory configuration); L2 `drv_c02 v3` = `T3V.seeV` against the real classes on the card image after a power cut at
+  EVERY Write command, read plain / after authenticate() / after a failed authenticate(), with MC_SP_REG_ALL_RW,
+  MC_SP_REG_R_RESTR, Nbr and WriteF varied on the reader side; L3 old / empty / not readable / none / new.
+* NXP `_read_capability_data` overrides (MifareUltralightC, NTAG21x): authenticated and plain readers of every cut image
+  with CC access nibbles varied (`nxp_reader_states`).
 """
 import copy
 
 from common import Model, hx, exc_name
 from sims import t34_lib as T
 
-LEAN_TARGETS = ["drv_t12", "drv_c02"]
+LEAN_TARGETS = ["NfcVerif.Props.C02Vendor", "drv_t12", "drv_c02"]
+
+THEOREMS = [
+    "NfcVerif.C02Vendor.t3_vendor_cut_safe",
+    "NfcVerif.C02Vendor.t3_vendor_view_refines_generic",
+    "NfcVerif.C02Vendor.t3_vendor_writeflag_respected",
+    "NfcVerif.C02Vendor.t3_vendor_answered",
+    "NfcVerif.C02Vendor.t3_vendor_history_cut_safe",
+    "NfcVerif.C02Vendor.t4_cached_reader_is_fresh",
+    "NfcVerif.C02Vendor.t4_cached_reader_cut_safe",
+]
 
 GOOD = ("O", "E", "N", "U", "W")
+
+_MODELS = {}
+
+
+def shared_model(exe):
+    """one driver build per executable and check run (every Model() regenerates Gen/ and calls lake under the lock)"""
+    if exe not in _MODELS:
+        _MODELS[exe] = Model(exe)
+    return _MODELS[exe]
 
 
 def run_part(ck):
     ck.rule += (" | vendor: NXP Type 2 products x layouts (factory control TLVs, NULL TLV padding, old message in either "
                 "length format) x messages {0, 1, 254, 255, 300, capacity} x every cut point (quick tier: one message per product, cut points sampled above 16; thorough: above 80); FeliCa Lite / "
                 "Lite-S x {plain, authenticated} x messages {1, 17, 40, 208} x fault (lost | late) on every Write command x "
-                "follow-up assignment (same | empty | other | longer), sampled second faults")
+                "follow-up assignment (same | empty | other | longer), sampled second faults; vendor readers: FeliCa Lite / "
+                "Lite-S x 3 (quick) / 24 (thorough) old/new length pairs x attribute Nbr 1..4 x power cut after EVERY Write command x "
+                "reader {plain, authenticated} on the card as issued + sampled {plain, authenticated, failed authentication} x "
+                "MC_SP_REG_ALL_RW x MC_SP_REG_R_RESTR x Nbr {0,1,3,4,5,15,16,255} on the reader side, at the first / last cut "
+                "the MC values the Lite-S override distinguishes; IC codes of FelicaStandard / Mobile / Plug / Link / unknown on "
+                "Type 3 memories of every geometry x cuts x Nbr / WriteF variations; NXP products x every cut x CC byte 3 "
+                "{issued, 88h, 80h, 08h, F0h} x {plain, authenticated}; non-trivial = 0 < k < number of commands")
     ck.trusted += ["harness/sims/c01_vendor.py (product probes in front of the Type 2 simulator), harness/sims/auth_felica.py "
-                   "(FeliCa Lite / Lite-S card written from the user manuals), fault hook of harness/props/c02_vendor.py"]
-    for name, fn in (("t2-vendor", nxp_cuts), ("felica-lite", lite_histories)):
+                   "(FeliCa Lite / Lite-S card written from the user manuals), fault and power-cut hooks of harness/props/c02_vendor.py",
+                   "hand-written Lean model NfcVerif.Model.T3Vendor (vendor overrides of _read_attribute_data, card read limits) tied "
+                   "by differential runs (drv_c02 v3)"]
+    ck.assumptions += [
+        "vendor readers: the MAC of an authentic card verifies; FeliCa Lite / Lite-S attribute blocks have Nbw = 1; the "
+        "authenticated NXP reader is the state authenticate() leaves (the Type 2 simulator has no PWD_AUTH / 3DES)"]
+    ck.lean("NfcVerif.Props.C02Vendor", THEOREMS)
+    if ck.thorough:
+        ck.leanchecker(["NfcVerif.Props.C02Vendor"])
+    for name, fn in (("t2-vendor", nxp_cuts), ("felica-lite", lite_histories), ("felica-lite-reader", lite_reader_cuts),
+                     ("t3-vendor-reader", generic_reader_cuts), ("t2-vendor-reader", nxp_reader_states)):
         try:
             fn(ck)
         except Exception as e:  # noqa  nfcpy returned / raised something the oracle code did not foresee
@@ -47,7 +89,7 @@ def nxp_cuts(ck):
     from sims.t12_run import read_line, show_cmds, classify
     import nfc.tag
     rng = ck.rng
-    model = Model("drv_t12")
+    model = shared_model("drv_t12")
     jobs = []
     for pi, product in enumerate(PRODUCTS):
         name = product[0]
@@ -277,7 +319,7 @@ def judge_lite(ck, h):
 
 def lite_histories(ck):
     rng = ck.rng
-    model = Model("drv_c02")
+    model = shared_model("drv_c02")
     hs = []
 
     def add(h, bucket):
@@ -324,3 +366,378 @@ def lite_histories(ck):
                     dict(h.replay(), request=h.request(), model=r[:3000], impl=h.line[:3000]))
     ck.tie("Type 3 history model vs tt3_sony FeliCa Lite / Lite-S (plain and authenticated: write_with_mac): outcome, blocks "
            "accepted by the card and the fresh reader's view after every attempt", len(hs), dis, False)
+
+
+# ---------------------------------------------------------------------------------------------- vendor readers
+class PowerCut(object):
+    """transit hook of auth_felica.Air: the card leaves the field after it accepted `k` Write commands counted from
+    begin(k): every later frame is lost"""
+
+    def __init__(self):
+        self.k = None
+        self.nw = 0
+
+    def begin(self, k):
+        self.k, self.nw = k, 0
+
+    def __call__(self, direction, index, frame):
+        if direction != "c" or self.k is None:
+            return frame
+        if self.nw >= self.k:
+            return None
+        if len(frame) > 10 and frame[1] == 0x08:
+            if self.nw >= self.k:
+                return None
+            self.nw += 1
+        return frame
+
+
+WRONG_KEY = bytes(range(0x51, 0x61))
+READER_STATES = ("plain", "auth", "wrong-key")
+
+
+def lite_card(lite_s, old, nbr):
+    from sims import auth_felica as F
+    card = F.LiteTag(F.key_block(LITE_KEY), lite_s=lite_s)
+    F.store_ndef(card.b, old, nbr=nbr, nbw=1, nmaxb=13)
+    card.b = {k: bytearray(v) for k, v in card.b.items()}
+    return card
+
+
+def power_cycled(card, mc_rw=None, mc_rd=None, nbr=None):
+    """the card as a fresh reader finds it: volatile state (challenge, external authentication) gone; `mc_rw` /
+    `mc_rd`: the memory configuration the card was issued with, `nbr`: the Nbr value its attribute block was issued
+    with (reader-side variations: the writer copies Nbr and never looks at MC)"""
+    c = copy.deepcopy(card)
+    c.log = []
+    c.rc_written, c.ext_auth = False, 0
+    c.b[0x80] = bytearray(16)
+    if mc_rw is not None:
+        c.b[0x88][0:2] = mc_rw.to_bytes(2, "little")
+    if mc_rd is not None:
+        c.b[0x88][6:8] = mc_rd.to_bytes(2, "little")
+    if nbr is not None:
+        a = c.b[0]
+        a[1] = nbr
+        a[14:16] = sum(a[0:14]).to_bytes(2, "big")
+    return c
+
+
+def lite_reader(card, state):
+    """a fresh reader of `card` in `state` -> (canonical view line, octets | None, model's auth flag)"""
+    from sims import auth_felica as F
+    try:
+        _, t = F.activate(card, None, ndef_system=True)
+        if state == "auth":
+            if t.authenticate(LITE_KEY) is not True:
+                return "exc AuthenticationFailed", None, True
+        elif state == "wrong-key":
+            if t.authenticate(WRONG_KEY) is not False:
+                return "exc WrongKeyAccepted", None, False
+        nd = t.ndef
+        return T.seen_line(nd), (None if nd is None else bytes(nd.octets)), state == "auth"
+    except Exception as e:  # noqa
+        return "exc " + exc_name(e), None, state == "auth"
+
+
+def reader_replay(cls, state, image, mc_rw, mc_rd, **more):
+    d = {"product": cls, "reader": {"plain": "tag.ndef", "auth": "tag.authenticate(card key) is True; tag.ndef",
+                                    "wrong-key": "tag.authenticate(other key) is False; tag.ndef"}[state],
+         "blocks_0_to_14": image.hex(), "MC_SP_REG_ALL_RW": "%04X" % mc_rw, "MC_SP_REG_R_RESTR": "%04X" % mc_rd}
+    d.update(more)
+    return d
+
+
+def lite_reader_cuts(ck):
+    """reader side of the WriteF protocol in FelicaLite.NDEF / FelicaLiteS.NDEF._read_attribute_data: the card is
+    pulled out after EVERY Write command of an assignment; the image is read by fresh readers in every authentication
+    state the class supports.  Oracle: old / empty / not readable / no NDEF / new; a complete write is read back by
+    every reader that may read; tie: every view equals `T3V.seeV` (`drv_c02 v3`)."""
+    import nfc.tag
+    from sims import auth_felica as F
+    rng = ck.rng
+    model = shared_model("drv_c02")
+    jobs = []
+    for cls, lite_s in (("FelicaLite", False), ("FelicaLiteS", True)):
+        pairs = [(o, n) for o in (0, 5, 16, 40, 100, 208) for n in (0, 3, 16, 17, 33, 90, 150, 208)]
+        pairs = rng.sample(pairs, 24) if ck.thorough else [(rng.choice([5, 16, 40]), rng.choice([17, 33])), (rng.choice([100, 208]), rng.choice([3, 16, 90])),
+                                           (rng.choice([0, 40, 208]), rng.choice([0, 150, 208]))]
+        for pi, (no, nn) in enumerate(pairs):
+            old, new = T.rbytes(rng, no, 1), T.rbytes(rng, nn, 1)
+            nbr = rng.choice([1, 2, 3, 4, 4]) if (ck.thorough and pi % 3 == 2) or pi > 1 else 4
+            hook = PowerCut()
+            # the undisturbed write, plain and (sampled) authenticated writer: the blocks the card accepted
+            logs = {}
+            for wauth in ((False, True) if (ck.thorough or pi == 0) else (False,)):
+                card = lite_card(lite_s, old, nbr)
+                _, tag = F.activate(card, hook, ndef_system=True)
+                rep = reader_replay(cls, "auth" if wauth else "plain", lite_image(card), 0xFFFF, 0, old=old.hex(), new=new.hex())
+                if type(tag).__name__ != cls or (wauth and tag.authenticate(LITE_KEY) is not True):
+                    ck.fail("felica-lite-not-activated", "%s: activated as %s" % (cls, type(tag).__name__), rep)
+                    continue
+                nd = tag.ndef
+                if nd is None or bytes(nd.octets) != old:
+                    ck.fail("felica-lite-wellformed-layout-not-read", "%s, Nbr %d: the %s writer does not find the old "
+                            "message of %d octets" % (cls, nbr, "authenticated" if wauth else "plain", no), rep)
+                    continue
+                n0 = len(card.log)
+                try:
+                    nd.octets = new
+                except Exception as e:  # noqa
+                    ck.fail("t3-retry-raises", "%s: undisturbed write of %d octets raised %s" % (cls, nn, exc_name(e)), rep)
+                    continue
+                logs[wauth] = card.log[n0:]
+            if False not in logs:
+                continue
+            if True in logs and logs[True] != logs[False]:
+                ck.fail("felica-lite-authenticated-writer-differs", "%s: the card accepted other blocks from the authenticated "
+                        "writer than from the plain one" % cls, {"plain": [(n, d.hex()) for n, d in logs[False]],
+                                                                 "authenticated": [(n, d.hex()) for n, d in logs[True]]})
+            total = len(logs[False])
+            for k in range(total + 1):
+                card = lite_card(lite_s, old, nbr)
+                _, tag = F.activate(card, hook, ndef_system=True)
+                nd = tag.ndef
+                hook.begin(k)
+                try:
+                    nd.octets = new
+                    res = "ok"
+                except nfc.tag.TagCommandError:
+                    res = "fail"
+                except Exception as e:  # noqa
+                    res = "exc " + exc_name(e)
+                hook.begin(None)
+                if res != ("fail" if k < total else "ok") or card.log != logs[False][:k]:
+                    ck.fail("t3-cut-not-reported", "%s: card pulled out after Write command %d of %d: the assignment ended %s, "
+                            "the card accepted %d commands" % (cls, k, total, res, len(card.log)),
+                            reader_replay(cls, "plain", lite_image(lite_card(lite_s, old, nbr)), 0xFFFF, 0, new=new.hex(), cut=k))
+                # readers: both states on the card as issued; a sampled other memory configuration
+                variants = [("plain", 0xFFFF, 0, nbr), ("auth", 0xFFFF, 0, nbr)]
+                for _ in range(2 if ck.thorough else 1):
+                    variants.append((rng.choice(READER_STATES), rng.choice([0xFFFF, 0x03FF, 0x83FF, 0x01FF, 0x0001, 0x7FFE]),
+                                     rng.choice([0, 0, 0x0001, 0x3FFE, 0x7FFF, 1 << rng.randrange(15)]) if lite_s else 0,
+                                     rng.choice([nbr, nbr, 0, 1, 3, 4, 5, 15, 16, 255])))
+                if not ck.thorough and 1 < k < total - 1 and (k + pi) % 2:
+                    variants = variants[1:]
+                if lite_s and k in (0, 1, total):     # the MC bits the Lite-S override looks at, and some it must not look at
+                    variants += [("auth", rw, 0, nbr) for rw in ((0x03FF, 0x01FF, 0xFDFF, 0x83FF) if k != 1 else (0x02FF,))]
+                    variants += [("plain", 0x01FF, rd, nbr) for rd in ((0x0001, 0x0002) if k != 1 else (0x4000,))]
+                for state, mc_rw, mc_rd, rnbr in variants:
+                    img = power_cycled(card, mc_rw, mc_rd, rnbr)
+                    image = lite_image(img)
+                    line, octets, mauth = lite_reader(img, state)
+                    rep = reader_replay(cls, state, image, mc_rw, mc_rd, old=old.hex(), new=new.hex(), cut_after_write_command=k,
+                                        write_commands=total, attribute_nbr=rnbr)
+                    jobs.append(("v3 %s %d %d %d %s" % ("s" if lite_s else "l", int(mauth), mc_rw, mc_rd, hx(image)), line, rep))
+                    cl = T.classify(line, old, new)
+                    who = {"plain": "a plain reader", "auth": "a reader that called tag.authenticate()",
+                           "wrong-key": "a reader whose tag.authenticate() failed"}[state]
+                    where = ("%s (Nbr %d, MC_SP_REG_ALL_RW %04Xh, R_RESTR %04Xh), old %d octets, new %d octets, card pulled out "
+                             "after Write command %d of %d: %s " % (cls, rnbr, mc_rw, mc_rd, no, nn, k, total, who))
+                    ck.case(("lite-reader", lite_s, state, mc_rw, mc_rd, image), 0 < k < total,
+                            "lite-reader:%s:%s:%s" % (cls, state, cl),
+                            sample={"product": cls, "reader": state, "cut": k, "of": total, "sees": cl}
+                            if state == "auth" and 1 < k < total and len(ck.samples) < 8 else None)
+                    nblk = ((nn if k == total else no) + 15) // 16
+                    blocked = (rnbr == 0 or (not mauth and min(rnbr, 15, nblk) > 4)
+                               or (lite_s and not mauth and mc_rd & ((1 << (nblk + 1)) - 1)))
+                    if cl == "raises":
+                        ck.fail("felica-lite-cut-reader-raises", where + "raises %s" % line[4:], rep)
+                    elif cl == "corrupt":
+                        ck.fail("felica-lite-cut-corrupt-%s-reader" % ("authenticated" if state == "auth" else "plain"),
+                                where + "sees ndef.is_readable == True and %s - neither the previous, an empty, a not readable "
+                                "nor the complete new message" % line[3:120], rep)
+                    elif k in (0, total) and not blocked and cl not in (("new",) if k else ("old", "new")):
+                        ck.fail("felica-lite-message-not-read-back", where + "sees %s instead of the %s message"
+                                % (line[3:80], "new" if k else "old"), rep)
+    T.compare(ck, model, jobs, "felica-lite-reader-model-vs-nfcpy")
+
+
+GENERIC_PRODUCTS = ((0x01, "FelicaStandard"), (0x20, "FelicaStandard"), (0x06, "FelicaMobile"), (0x14, "FelicaMobile"),
+                    (0xE0, "FelicaPlug"), (0xE1, "FelicaPlug"), (0xF2, "FelicaLiteS"), (0xAA, "Type3Tag"), (0xF0, "FelicaLite"))
+
+
+def product_sim(ic, mem, nbr, nbw, cut=None):
+    """sims/t34_sims.T3Sim answering the polling with IC code `ic` (nfc.tag.tt3_sony.activate picks the class by it)"""
+    import nfc.clf
+    from sims import t34_sims as S
+
+    class PSim(S.T3Sim):
+        pmm = bytes([0, ic]) + S.PMM[2:]
+
+        def target(self):
+            return nfc.clf.RemoteTarget("212F", sensf_res=bytearray(b"\x01" + S.IDM + self.pmm + b"\x12\xFC"))
+
+        def activate(self):
+            import nfc.tag.tt3
+            return nfc.tag.tt3.activate(self, self.target())
+
+        def exchange(self, cmd, timeout):
+            if not self.dead and len(cmd) == cmd[0] and cmd[1] == 0:
+                rsp = S.IDM + self.pmm + (b"\x12\xFC" if cmd[4] == 1 else b"")
+                return bytearray([2 + len(rsp), 1]) + rsp
+            return S.T3Sim.exchange(self, cmd, timeout)
+
+    return PSim(mem, 4 if ic in (0xF0, 0xF1, 0xF2) else max(nbr, 15), nbw, cut)
+
+
+def generic_reader_cuts(ck):
+    """the product classes WITHOUT an override (FelicaStandard, FelicaMobile, FelicaPlug, plain Type3Tag) and the
+    FeliCa Link in Lite-S mode on plain Type 3 memory (every geometry, not only the 13 blocks of a Lite): every cut of a
+    write, fresh reader of the same class; views equal `T3V.seeV` and are old / empty / not readable / none / new"""
+    import nfc.tag
+    rng = ck.rng
+    model = shared_model("drv_c02")
+    jobs = []
+    lays = [lay for lay in T.gen_t3(rng, 40 if ck.thorough else 9, ck.thorough, big=False) if lay.nbw < 13]
+    for i, lay in enumerate(lays):
+        ic, cls = GENERIC_PRODUCTS[i % len(GENERIC_PRODUCTS)]
+        letter = "l" if cls == "FelicaLite" else "s" if cls == "FelicaLiteS" else "g"
+        if letter != "g" and lay.nbw != 1:     # write_without_mac / write_with_mac take ONE block: Nbw = 1 (assumed, as format() writes)
+            lay = T.L3(lay.nbr, 1, lay.nmaxb, lay.old, lay.mem)
+        new = T.rbytes(rng, min(lay.cap, rng.choice([0, 1, 16, 17, lay.cap, rng.randrange(lay.cap + 1)])), 1)
+        rep0 = {"product": cls, "ic_code": ic, "layout": lay.descr(), "data": new.hex()}
+        sim = product_sim(ic, lay.mem, lay.nbr, lay.nbw)
+        tag = sim.activate()
+        if type(tag).__name__ != cls:
+            ck.fail("t3-vendor-not-activated", "IC code %02Xh activated as %s" % (ic, type(tag).__name__), rep0)
+            continue
+        run = T.SetRun(product_sim(ic, lay.mem, lay.nbr, lay.nbw), new)
+        if run.res != "ok":
+            if not (letter != "g" and lay.nbr > 4):
+                ck.fail("t3-retry-raises", "%s: undisturbed write of %d octets ended %s" % (cls, len(new), run.res or run.line), rep0)
+            continue
+        total = len(run.sim.writes)
+        for k in ([0, total] + pick(rng, total, 30 if ck.thorough else 6)):
+            sim = product_sim(ic, lay.mem, lay.nbr, lay.nbw, cut=k)
+            r = T.SetRun(sim, new)
+            if k < total and not (r.res or "").startswith("exc TagCommandError"):
+                ck.fail("t3-cut-not-reported", "%s: write interrupted at %d ended %s" % (cls, k, r.res), dict(rep0, cut_after=k))
+            for rnbr in ([lay.nbr] + ([rng.choice([0, 1, 15, 16, 255, -1, -0xF0, -0xFF])] if (k + i) % 3 == 0 else [])):
+                mem = bytearray(sim.mem)
+                if rnbr < 0:       # another value of WriteF than the writer's 00h / 0Fh: any non-zero value means "in progress"
+                    mem[9] = -rnbr
+                    rnbr = lay.nbr
+                    new_flag = True
+                else:
+                    new_flag = False
+                    mem[1] = rnbr
+                mem[14:16] = sum(mem[0:14]).to_bytes(2, "big")
+                mem = bytes(mem)
+                line, _ = T.see(product_sim(ic, mem, 15, lay.nbw))
+                rep = dict(rep0, cut_after=k, commands=total, memory_after_cut=mem.hex(), attribute_nbr=rnbr)
+                jobs.append(("v3 %s 0 65535 0 %s" % (letter, hx(mem)), line, rep))
+                cl = T.classify(line, lay.old, new)
+                ck.case(("generic-reader", ic, mem), 0 < k < total, "t3-reader:%s:%s" % (cls, cl))
+                if cl in ("corrupt", "raises"):
+                    ck.fail("t3-vendor-cut-" + cl, "%s (IC code %02Xh), Nbr %d, old %d octets, new %d octets, cut after command %d "
+                            "of %d: a fresh reader sees %s" % (cls, ic, rnbr, len(lay.old), len(new), k, total, line[:100]), rep)
+                elif new_flag and cl not in ("not-readable", "none"):
+                    ck.fail("t3-vendor-writeflag-ignored", "%s: WriteF = %02Xh in a valid attribute block, the reader reports %s"
+                            % (cls, mem[9], line[:60]), rep)
+                elif k in (0, total) and not new_flag and rnbr and (letter == "g" or min(rnbr, 15) <= 4) \
+                        and cl not in (("new",) if k else ("old", "new")):
+                    ck.fail("t3-vendor-message-not-read-back", "%s: %s message not read back: %s"
+                            % (cls, "new" if k else "old", line[:100]), rep)
+    T.compare(ck, model, jobs, "t3-vendor-reader-model-vs-nfcpy")
+
+
+def pick(rng, total, limit):
+    ks = list(range(1, total))
+    return ks if len(ks) <= limit else sorted(rng.sample(ks, limit))
+
+
+def nxp_reader_states(ck):
+    """reader side in MifareUltralightC.NDEF / NTAG21x.NDEF._read_capability_data: after authenticate() the access
+    nibbles 8h of CC byte 3 ("password protected") count as readable / writeable.  The flags are a function of (base
+    result, authenticated?, CC byte 3, lock bytes) - they must never change WHICH message is seen: on the memory left
+    by every cut of a write, with CC byte 3 as issued / 88h / 80h / 08h / F0h, a plain and an authenticated reader
+    see what the plain reader of the issued card sees, or 'not readable' exactly when the function says so.
+    (The simulator has no PWD_AUTH / 3DES: the authenticated state is the attribute authenticate() sets; the
+    authentication itself is property C20.)"""
+    from sims.c01_vendor import PRODUCTS, VT2, vendor_layout, with_old
+    import nfc.tag
+    import nfc.tag.tt2
+    rng = ck.rng
+
+    def view(mem, product, auth):
+        try:
+            s = VT2(bytes(mem), product)
+            tag = nfc.tag.activate(s, s.target())
+            tag._authenticated = auth
+            nd = tag.ndef
+            if nd is None:
+                return "N", None, type(tag)
+            return ("R" if nd.is_readable else "U") + ("W" if nd.is_writeable else "-"), bytes(nd.octets), type(tag)
+        except Exception as e:  # noqa
+            return "X" + exc_name(e), None, None
+
+    n = 0
+    for pi, product in enumerate(PRODUCTS):
+        name = product[0]
+        lay = None
+        for _ in range(30):
+            lay = vendor_layout(rng, product, nulls=rng.randrange(0, 4))
+            if lay["ok"]:
+                lay = with_old(rng, lay, rng.choice([0, 5, 40]))
+                if lay is not None:
+                    break
+        if lay is None or not lay.get("ok"):
+            continue
+        base = bytes(lay["mem"])
+        s0 = VT2(base, product)
+        tag = nfc.tag.activate(s0, s0.target())
+        overrides = type(tag).NDEF._read_capability_data is not nfc.tag.tt2.Type2Tag.NDEF._read_capability_data
+        if not overrides and not ck.thorough and pi % 3:
+            continue
+        nd = tag.ndef
+        if nd is None:
+            continue
+        old = bytes(nd.octets)
+        cap = nd.capacity
+        data = bytes(rng.randrange(1, 256) for _ in range(min(cap, rng.choice([0, 3, 17, 30]))))
+        s0.arm(None)
+        try:
+            nd.octets = data
+        except Exception as e:  # noqa
+            ck.fail("t12-retry-raises", "%s: undisturbed write raised %s" % (name, exc_name(e)), {"product": name, "memory": base.hex(), "data": data.hex()})
+            continue
+        ncmd = len(s0.writes)
+        ks = list(range(ncmd + 1)) if ncmd <= 14 or ck.thorough else sorted(set([0, 1, 2, ncmd - 2, ncmd - 1, ncmd] + rng.sample(range(ncmd + 1), 6)))
+        for k in ks:
+            s = VT2(base, product)
+            d = nfc.tag.activate(s, s.target()).ndef
+            s.arm(k)
+            try:
+                d.octets = data
+            except Exception:  # noqa  (judged by nxp_cuts)
+                pass
+            img = bytearray(s.mem)
+            ref = view(img, product, False)
+            for cc3 in (img[15], 0x88, 0x80, 0x08, 0xF0):
+                for auth in (False, True):
+                    m = bytearray(img)
+                    m[15] = cc3
+                    flags, octets, cls = view(m, product, auth)
+                    n += 1
+                    eff = auth and overrides
+                    rd = cc3 >> 4 == 0 or (eff and cc3 >> 4 == 8)
+                    wr = cc3 & 15 == 0 or (eff and cc3 & 15 == 8 and bytes(m[10:12]) == b"\0\0")
+                    want = ref[0] if ref[0][0] in "NX" else ("R" if rd else "U") + ("W" if wr else "-")
+                    rep = {"product": name, "memory_after_cut": bytes(m).hex(), "cc_byte_3": "%02X" % cc3, "cut": k, "commands": ncmd,
+                           "reader": "tag.ndef after authenticate()" if auth else "tag.ndef", "old": old.hex(), "new": data.hex()}
+                    ck.case(("nxp-reader", name, bytes(m), auth), 0 < k < ncmd,
+                            "nxp-reader:%s:%s:%s" % ("override" if overrides else "base", "auth" if auth else "plain", flags[:1]))
+                    if flags[0] == "X":
+                        ck.fail("t12-cut-reader-raises", "%s, CC byte 3 = %02Xh, cut after command %d of %d: the %s reader raises %s"
+                                % (name, cc3, k, ncmd, "authenticated" if auth else "plain", flags[1:]), rep)
+                    elif octets is not None and flags[0] == "R" and octets not in (old, b"", data):
+                        ck.fail("t2-vendor-cut-corrupt-%s-reader" % ("authenticated" if auth else "plain"),
+                                "%s, CC byte 3 = %02Xh, old %d octets, new %d octets, cut after command %d of %d: the reader sees a "
+                                "readable message of %d octets that is neither" % (name, cc3, len(old), len(data), k, ncmd, len(octets)), rep)
+                    elif flags != want or octets != ref[1]:
+                        ck.fail("t2-vendor-reader-state-changes-view", "%s, CC byte 3 = %02Xh, cut after command %d of %d: the %s reader "
+                                "reports %s / %s octets, expected %s / %s octets (what the plain reader of the issued card sees, flags "
+                                "from CC byte 3)" % (name, cc3, k, ncmd, "authenticated" if auth else "plain", flags,
+                                                     None if octets is None else len(octets), want, None if ref[1] is None else len(ref[1])), rep)
+    ck.notes.append("vendor: %d reads of cut images by plain / authenticated NXP readers with CC access variations" % n)
